@@ -18,7 +18,7 @@ type c04 struct{}
 func (c04) ID() string    { return "C04" }
 func (c04) Level() string { return "exploration" }
 func (c04) Rule() string {
-	return "for every attribute of a table of 80 service / network / volume / secret / config attributes classified by the rule the statement gives it (scalar replace, mapping merge, sequence append, KEY=VALUE by key in either spelling, wholesale replace, keyed list): ALL ways to split a final value of 2-3 atoms into a base part and an override part that the rule maps back to it (replacement from another value or from nothing; every base-only/override-only/both assignment of mapping keys; every cut point of a sequence, with and without a duplicate; every spelling on either side), delivered as two files and as two documents of one file (thorough: 2 overrides, mixed delivery); oracle: load(split) == load(single target document). !reset and !override at a representative of each class; a later file mentioning one attribute leaves every other attribute of the full corpus document unchanged. distinct = distinct (attribute, split) pairs"
+	return "for every attribute of a table of 80 service / network / volume / secret / config attributes classified by the rule the statement gives it (scalar replace, mapping merge, sequence append, KEY=VALUE by key in either spelling, wholesale replace, keyed list, mapping of names with a short list spelling): ALL ways to split a final value of 2-3 atoms into a base part and an override part that the rule maps back to it (replacement from another value or from nothing; every base-only/override-only/both assignment of mapping keys; every cut point of a sequence, with and without a duplicate; every spelling on either side), delivered as two files and as two documents of one file (thorough: 2 overrides, mixed delivery); oracle: load(split) == load(single target document). !reset and !override at a representative of each class; a later file mentioning one attribute leaves every other attribute of the full corpus document unchanged. distinct = distinct (attribute, split) pairs"
 }
 func (c04) Assumptions() []string {
 	return []string{
@@ -104,6 +104,11 @@ func c04table() []c04attr {
 		wh("S.command", []any{"old", "cmd"}, []any{"new"}), wh("S.entrypoint", []any{"/old"}, []any{"/new", "--flag"}),
 		wh("S.healthcheck.test", []any{"CMD", "old"}, []any{"CMD", "new", "arg"}),
 		wh("S.command", "old as string", "new string"),
+		// mappings of names that also have a short list spelling: an entry that is not refined keeps its (default) value
+		{path: "S.depends_on", class: "named", keys: []string{"t", "u"}, vals: []any{m("condition", "service_started")},
+			fin: []any{m("condition", "service_healthy", "restart", true), nil}, alt: []any{nil, m("condition", "service_completed_successfully")}},
+		{path: "S.networks", class: "named", keys: []string{"n1", "n2"}, vals: []any{nil},
+			fin: []any{m("aliases", []any{"a1"}), nil}, alt: []any{nil, nil}},
 		// keyed lists: later entry with the same key wins
 		{path: "S.volumes", class: "keyed", entries: [][3]any{{"/t1", "named:/t1", "./src:/t1:ro"}, {"/t2", "./a:/t2", "named:/t2"}, {"/t3", "/abs:/t3", "./b:/t3"}}},
 		{path: "S.ports", class: "keyed", entries: [][3]any{{"3000", "8000:3000", "8000:3000"}, {"3001", "8001:3001/udp", "8001:3001/udp"}, {"3002", "127.0.0.1:8002:3002", "127.0.0.1:8002:3002"}}},
@@ -280,6 +285,67 @@ func c04splits(a c04attr) []c04split {
 					// host lists use = or : between host and address in list spelling
 				}
 				out = append(out, c04split{fmt.Sprintf("keys%d-sp%d", code, sp), b, len(bk) > 0, o, target})
+			}
+		}
+	case "named":
+		// a.vals[0] is the long spelling of the default entry; nil in fin/alt means "default"
+		def := a.vals[0]
+		long := func(v any) any {
+			if v == nil {
+				return def
+			}
+			return v
+		}
+		n := len(a.keys)
+		tot := 1
+		for i := 0; i < n; i++ {
+			tot *= 3
+		}
+		target := map[string]any{}
+		for i, k := range a.keys {
+			target[k] = long(a.fin[i])
+		}
+		// spellings of one side: the mapping, and the short list when every entry is a default
+		spell := func(ks []string, vs []any) []any {
+			mp := map[string]any{}
+			allDef := true
+			var lst []any
+			for i, k := range ks {
+				mp[k] = long(vs[i])
+				lst = append(lst, k)
+				if vs[i] != nil {
+					allDef = false
+				}
+			}
+			out := []any{mp}
+			if allDef && len(ks) > 0 {
+				out = append(out, lst)
+			}
+			return out
+		}
+		for code := 0; code < tot; code++ {
+			var bk, ok []string
+			var bv, ov []any
+			x := code
+			for i := 0; i < n; i++ {
+				switch x % 3 {
+				case 0:
+					bk, bv = append(bk, a.keys[i]), append(bv, a.fin[i])
+				case 1:
+					ok, ov = append(ok, a.keys[i]), append(ov, a.fin[i])
+				case 2:
+					bk, bv = append(bk, a.keys[i]), append(bv, a.alt[i])
+					ok, ov = append(ok, a.keys[i]), append(ov, a.fin[i])
+				}
+				x /= 3
+			}
+			if len(ok) == 0 {
+				continue
+			}
+			for bi, b := range spell(bk, bv) {
+				for oi, o := range spell(ok, ov) {
+					out = append(out, c04split{fmt.Sprintf("names%d-sp%d%d", code, bi, oi), b, len(bk) > 0, o, target})
+				}
 			}
 		}
 	case "seq":
